@@ -141,6 +141,20 @@ func (t *VTransport) EagerSync(target string, args *bnet.EagerSyncRequest, resp 
 }
 
 func (t *VTransport) FastForward(target string, args *bnet.FastForwardRequest, resp *bnet.FastForwardResponse) error {
+	if _, ok := t.vn.byAddr[target]; !ok && t.vn.ffTamper != nil {
+		// an address that belongs to no node of the run (a peer the node was talked
+		// into): the adversary answers there - with the response of the lowest-numbered
+		// live node as raw material for the tampering
+		best := ""
+		for addr, nd := range t.vn.byAddr {
+			if nd.num != t.self && !t.vn.down[nd.num] && (best == "" || nd.num < t.vn.byAddr[best].num) {
+				best = addr
+			}
+		}
+		if best != "" {
+			target = best
+		}
+	}
 	r, err := t.call(target, args)
 	if r != nil {
 		if fr, ok := r.(*bnet.FastForwardResponse); ok && fr != nil {
